@@ -636,7 +636,17 @@ BUDGET_THOROUGH = 3000
 def unary_comparison_operand_dropped(case, bucket, detail):
     """Root cause D (offered in case its repair, which needs five vacuous test assertions corrected, is not applied):
     the smallest failing sub-form is a comparison operator applied to exactly one operand."""
-    return bucket == "dropped:compare1"
+    if bucket == "dropped:compare1":
+        return True
+    # the same root cause with a larger operand: the smallest failing sub-form (the diagnosis hoists everything away that
+    # is not needed for the failure) is itself a comparison operator applied to exactly one operand, which it drops whole
+    if not (bucket.startswith("dropped:compare1/") or bucket.startswith("not-evaluated:compare1/")):
+        return False
+    try:
+        m = analyse(case).get("minimal_tree")
+    except Exception:
+        return False
+    return bool(m) and m[0] == "op" and m[1] in F.COMPARE and len(m[2]) == 1
 
 
 MATCHERS = {"unary_comparison_operand_dropped": unary_comparison_operand_dropped}
